@@ -267,9 +267,55 @@ def run_witness(code):
     return p.returncode == 0 and p.stdout.strip().endswith("DEFECT-PRESENT"), (p.stdout + p.stderr)[-500:]
 
 
+def _lean_lemmas(rel, extra, started=None):
+    """check the Lean file holding the set-sum lemma statements (the axioms the SMT side assumes) against Mathlib; one
+    obligation per theorem, discharged by lean4 iff the whole file is accepted and no `sorry` / `axiom` occurs in it"""
+    import re as _re
+    import subprocess
+
+    path = os.path.join(VERIF, rel)
+    text = open(path).read()
+    theorems = _re.findall(r"^theorem\s+(\w+)", text, _re.M)
+    t0 = time.time()
+    try:
+        if started is not None:
+            t0, proc = started
+            stdout, _ = proc.communicate(timeout=900)
+            ok, out = proc.returncode == 0 and "error" not in (stdout or ""), (stdout or "")[-1500:]
+        else:
+            p = subprocess.run(["lean", path], capture_output=True, text=True, timeout=900)
+            ok, out = p.returncode == 0 and "error" not in (p.stdout + p.stderr), (p.stdout + p.stderr)[-1500:]
+    except Exception as ex:  # noqa
+        ok, out = False, "%s: %s" % (type(ex).__name__, ex)
+    cheats = _re.findall(r"\b(sorry|axiom|admit|native_decide)\b", text)
+    secs = time.time() - t0
+    from . import setsum
+
+    used = sorted(setsum.axioms()) + ["ssum_congr", "ssum_union", "ssum_nonneg", "ssum_zero", "ssum_member_le", "sum_enumeration", "card_eq_sum_ones"]
+    obs = []
+    for name in theorems:
+        obs.append({"name": "lean:SetSum.%s" % name, "full_name": "lean:SetSum.%s" % name, "path": "-", "kind": "lemma", "label": name, "seconds": round(secs / max(1, len(theorems)), 3),
+                    "status": "discharged" if ok and not cheats else "undecided", "backend": "lean4+mathlib", "detail": "theorem checked by lean against Mathlib" if ok else out[-300:]})
+    if not theorems:
+        extra.setdefault("engine", []).append("lean: no theorem found in %s" % rel)
+    if cheats:
+        extra.setdefault("engine", []).append("lean: %s contains %s" % (rel, sorted(set(cheats))))
+    missing = [u for u in used if u.startswith("ssum") and u not in theorems and u not in ("ssum_update",) and u not in theorems]
+    return {"key": "lean:" + rel, "obligations": obs, "paths": 0, "paths_by_outcome": {}, "requires_sat": "sat", "notes": ["axioms used by the SMT side: %s" % ", ".join(used)], "inlined": [], "hyp": [],
+            "file": path, "span": None, "sha": hashlib.sha256(text.encode()).hexdigest(), "seconds": round(secs, 3)}
+
+
 def run_property(pid, tier="quick", seed=0, jobs=None, extra=None):
     t0 = time.time()
     modules = PROPERTY_MODULES[pid]
+    from .props import PROPS as _P
+
+    lean_proc = None
+    if _P[pid].get("lean"):
+        import subprocess
+
+        # the Lean check of the lemma statements runs alongside the SMT workers
+        lean_proc = (time.time(), subprocess.Popen(["lean", os.path.join(VERIF, _P[pid]["lean"])], stdout=subprocess.PIPE, stderr=subprocess.STDOUT, text=True))
     E = load_engine(modules)
     keys = [k for k, c in E.contracts.items() if pid in c.props]
     jobs_list = [(modules, k, tier, seed, pid) for k in keys]
@@ -288,6 +334,9 @@ def run_property(pid, tier="quick", seed=0, jobs=None, extra=None):
         recs = lemmas.prove_all()
         results.append({"key": "lemmas:fold", "obligations": [dict(r, path="-", kind="lemma", detail=r["statement"], label=r["name"]) for r in recs],
                         "paths": 0, "paths_by_outcome": {}, "requires_sat": "sat", "notes": [], "inlined": [], "hyp": [], "file": "/verif/pyvc/lemmas.py", "span": None, "sha": None, "seconds": sum(r["seconds"] for r in recs)})
+
+    if PROPS[pid].get("lean"):
+        results.append(_lean_lemmas(PROPS[pid]["lean"], extra, lean_proc))
 
     bmod = PROPS[pid].get("bounded")
     if bmod:
